@@ -340,7 +340,7 @@ Proof.
       change (push 0 st) with st in G.
       destruct o; unfold sim; try exact G.
       change (skipn (cost 0) stl) with stl. eapply reach_ip; [|exact G].
-      rewrite LX; unfold cond_ip; simpl; lia.
+      rewrite LX; unfold cond_ip; change (cost 0) with 0; lia.
     + destruct (Hw Hn) as [Hpush Hpop]. rewrite (cost_pos nl Hn) in *. rewrite (push_pos nl st Hn) in Hri.
       assert (Hr0 : reach code (base, st, tr) (cond_ip, sti, tri)).
       { eapply reach_trans; [eapply reach_one; [exact Hpush|reflexivity]|exact Hri]. }
@@ -348,9 +348,9 @@ Proof.
       destruct o; unfold sim; try exact G.
       eapply reach_trans; [exact G|].
       assert (Hpop' : nth_error code (cond_ip + match cond with Some _ => 1 | None => 0 end + bsize nb body + length post + 1) = Some IPop).
-      { rewrite <- Hpop. f_equal. rewrite LX; unfold cond_ip; lia. }
+      { rewrite <- Hpop. f_equal. rewrite LX; unfold cond_ip; rewrite ?(cost_pos nl Hn); lia. }
       eapply reach_one; [exact Hpop'|]. simpl.
-      match goal with |- Some (?a, _, _) = Some (?b, _, _) => replace b with a by (rewrite LX; unfold cond_ip; lia) end.
+      match goal with |- Some (?a, _, _) = Some (?b, _, _) => replace b with a by (rewrite LX; unfold cond_ip; rewrite ?(cost_pos nl Hn); lia) end.
       destruct stl; reflexivity.
   - (* SSwitch *)
     inv_bind' Hc. inversion Hc; subst. clear Hc.
